@@ -5,6 +5,7 @@ import Proofs.PCQueueRefine
 import Proofs.PCQueueEintr
 import Proofs.ChainStream
 import Proofs.ChainPoolSys
+import Proofs.ChainSys
 /-!
 # C17 — Queues and chains deliver each item exactly once, in order, and terminate
 
@@ -541,6 +542,38 @@ theorem pool_exactly_once_steplevel {w : Nat} {reqs : List Nat} (hw : 0 < w) (hc
   obtain ⟨_, hp⟩ := pool_areach ha
   obtain ⟨h1, h2, h3, _, _, h6⟩ := pool_exactly_once hw hcap hp
   exact ⟨hp, h1, h2, h3, h6⟩
+
+/-- **Chain on the step-level queues.**  The chain as client program (`chainProg`: the user thread runs
+`Chain::Start` and `Chain::Wait`, thread `i+1` runs the `Link` loop of stage `i`, thread start and `join` are
+`await`s) running on `m+1` step-level `PCQueue`s with arbitrary interrupts: the abstraction of every reachable
+state is a reachable state of the `Chain` model (`chain_astep`: the atomic client system with `chainProg` IS the
+`Chain` model), so the safety clauses of `chain_ring` hold for it: order, content, poison at most once and last and
+iff finished, capacity, "Chain ending without poison" unreachable, and the final delivery once the abstract state
+says `Chain::Wait` has returned.  (Deadlock freedom / termination of the composed system itself are not derived
+here; the abstract `chain_ring` clauses 5 and 6 hold for the denoted `Chain` state.) -/
+theorem chain_ring_steplevel {b m : Nat} {data : List Nat} (hb : 0 < b) (hm : 1 ≤ m)
+    {c : CState CLoc}
+    (hr : CReach (chainProg (Chain.init b m data)) (cinit (chainProg (Chain.init b m data)) (chainLoc0 b)) c) :
+    let x := toChain (Chain.init b m data) (Sys.abs c)
+    Chain.Reach (Chain.init b m data) x
+    ∧ ((∀ i, i < m → (x.st i).out = (x.st (i + 1)).inp ++ x.q (i + 1))
+        ∧ List.replicate (b - fillRem x) (Item.val 0) ++ (x.st m).out = (x.st 0).inp ++ x.drained ++ x.q 0)
+    ∧ (∀ i, i ≤ m → (x.st i).out ++ pend (x.st i) = @outFrom defaultStageFn m data i [] (x.st i).inp
+        ∧ (1 ≤ i → (x.st i).out ++ pend (x.st i) = (x.st i).inp.map (passOf m i)))
+    ∧ (∀ i, i ≤ m → Item.poison ∉ (x.st i).out.dropLast ∧ ((x.st i).pc = .finished ↔ Item.poison ∈ (x.st i).out))
+    ∧ (∀ j, j ≤ m → (x.q j).length ≤ b)
+    ∧ (x.main ≠ .aborted
+        ∧ (x.main = .finished →
+            (∀ i, i ≤ m → (x.st i).pc = .finished) ∧ Item.poison ∈ x.drained
+            ∧ (x.st 0).out = data.map Item.val ++ [Item.poison]
+            ∧ ∀ i, i < m → x.q (i + 1) = [] ∧ (x.st (i + 1)).inp = (x.st i).out)) := by
+  intro x
+  have hcap : ∀ q, 0 < (chainProg (Chain.init b m data)).cap q := fun _ => hb
+  obtain ⟨_, ha⟩ := creach_refines hcap hr
+  have hx : Chain.Reach (Chain.init b m data) x :=
+    (chain_areach (b := b) (m := m) (data := data) (tr := (Chain.init b m data).tr) ha).2
+  obtain ⟨h1, h2, h3, h4, _, _, h7⟩ := chain_ring hb hm hx
+  exact ⟨hx, h1, h2, h3, h4, h7⟩
 
 end composed
 
